@@ -222,6 +222,8 @@ pub(super) fn complex_borrow_check(
                     // some of those nodes.
                     if unblocked_any_node {
                         strategy_on_block = StrategyOnBlock::Park;
+                        // The next round of cloning must unblock a node of its own to count as progress.
+                        unblocked_any_node = false;
                     } else {
                         strategy_on_block = StrategyOnBlock::Error;
                     }
